@@ -1,4 +1,5 @@
 import NTV.Proofs.Lemmas.PolyModBasics
+import NTV.Proofs.Lemmas.PolyDivremMod
 /-! # C12 — roots modulo p with multiplicity: what is proved about the model so far.
 The full statement (the returned multiset equals the roots with multiplicity) is certified on every
 explored case by an independent brute-force / planted-root oracle; see lib/propinfo.py. -/
@@ -16,5 +17,16 @@ theorem root_test_sound (f : List Int) (a p : Int) :
 /-- the modular inverse used for the degree-1 base case (−c₀·c₁⁻¹) is an inverse for prime p -/
 theorem linear_case_inverse (p : Nat) (hp : p.Prime) (x : Int) (hx : IsCoprime x (p : Int)) :
     x * modinv x (p : Int) ≡ 1 [ZMOD (p : Int)] := modinv_spec p hp x hx
+
+/-- the division primitive every stage is built on, `poly_divrem(a, b, p)`, satisfies its contract for
+every prime p not dividing lc(b): a ≡ q·b + r (mod p), deg r < deg b, results canonical -/
+theorem division_contract (a b : List Int) (p : Nat) (hp : p.Prime) (ha : a ≠ []) (hb : b ≠ [])
+    (hab : b.length ≤ a.length) (hlc : IsCoprime (NTV.PolyG.lc b) (p : Int)) :
+    NTV.Hensel.PCong p (NTV.PolyG.toPoly a)
+      (NTV.PolyG.toPoly (NTV.PolyMod.polyDivrem a b p).1 * NTV.PolyG.toPoly b +
+        NTV.PolyG.toPoly (NTV.PolyMod.polyDivrem a b p).2) ∧
+    (NTV.PolyMod.polyDivrem a b p).2.length < b.length ∧
+    NTV.PolyG.Canon (NTV.PolyMod.polyDivrem a b p).1 ∧ NTV.PolyG.Canon (NTV.PolyMod.polyDivrem a b p).2 :=
+  NTV.PolyMod.polyDivrem_contract_prime a b p hp ha hb hab hlc
 
 end NTV.C12
